@@ -950,7 +950,12 @@ class Engine:
 
     def st_For(self, s, st):
         lab, spec = self.loop_spec(s)
-        desc = self.iterable(s.iter, st)
+        if spec.iter_name:
+            itv = self.ev(s.iter, st, False)
+            st.env[spec.iter_name] = itv
+            desc = self.iter_value(itv, st, s.iter)
+        else:
+            desc = self.iterable(s.iter, st)
         gseq = getattr(desc, "ghost_seq", None) or getattr(getattr(desc, "inner", None), "ghost_seq", None)
         if spec.seq_fun:
             if gseq is None or spec.seq_fun not in self.gfuns:
@@ -1293,6 +1298,27 @@ class Engine:
 
     def str_const(self, s):
         return PyConst(s)
+
+    def ex_JoinedStr(self, e, st, spec):
+        """f-string: with exactly one formatted integer it is an injective function of that integer (str(int) is injective and the
+        literal parts are fixed); any other f-string is message text, never inspected"""
+        holes = [v for v in e.values if isinstance(v, ast.FormattedValue)]
+        if len(holes) == 1:
+            try:
+                v = self.ev(holes[0].value, st, spec)
+            except EngineError:
+                v = None
+            if v is not None and is_int(v):
+                key = "fstr:" + "".join(x.value if isinstance(x, ast.Constant) else "{}" for x in e.values)
+                f = z3.Function(key, I, R)
+                i, j = z3.Ints("i!fs j!fs")
+                ax = z3.ForAll([i, j], z3.Implies(f(i) == f(j), i == j), patterns=[z3.MultiPattern(f(i), f(j))])
+                if not any(ax.eq(a) for a in self.global_axioms):
+                    self.global_axioms = list(self.global_axioms) + [ax]
+                    self.psum_used = True
+                self.used_models.add("model:f-string with one integer hole = injective function of the integer")
+                return f(v)
+        return PyConst("<formatted text>")
 
     def ex_Name(self, e, st, spec):
         if e.id in st.env:
@@ -1872,6 +1898,10 @@ class Engine:
 
     # ---- spec-only functions
     def spec_call(self, name, e, st):
+        if name == "fstr":
+            # the string f"<literal parts with {} for the integer hole>" as a function of the integer (see ex_JoinedStr)
+            key = e.args[0].value
+            return z3.Function("fstr:" + key, I, R)(self.ev(e.args[1], st, True))
         if name == "ghost":
             gname = e.args[0].value if isinstance(e.args[0], ast.Constant) else e.args[0].id
             gr = st.env.get("$ghost_returns", {})
